@@ -49,8 +49,39 @@ def pri_digest(cfg):
 
 WORD_CFGS = {'quick': ['fast', 'w32fast', 'dbgp', 'rel3', 'clang'], 'thorough': ['fast', 'w32fast', 'dbgp', 'dbg32', 'rel3', 'O1', 'clang']}
 
+# stateful layer: code that only runs between Start and the last Step / after particular command sequences (the bash automaton's Ratchet
+# and Restart, buffered tails of the Step functions) is not reached by one-shot corpus cases.  The explicit-state searches of C03 (bash
+# automaton against ref/bash.py) and C10 (every Start/Step/Get bundle against the one-shot function, which the corpus digests tie to the
+# primary configuration) are executed by the other configurations as well -- in particular by every bash-f platform variant, the only
+# ones in which bashF() uses the stack area of the states.
+STATE_CFGS = {'quick': ['bash32', 'sse2', 'avx2', 'avx512', 'w32', 'dbg', 'fast', 'clang'],
+              'thorough': ['rel3', 'O1', 'dbgp', 'dbg', 'clang', 'w32', 'dbg32', 'fast', 'w32fast', 'bash32', 'sse2', 'avx2', 'avx512']}
+
+def stateful(tier, cfg):
+    import C03, C10
+    C03.CFG = cfg; C10.CFG = cfg
+    col = C07._Collector()
+    C03.automaton(col, 'quick')
+    viol = [{'key': 'st:' + k, 'rec': dict(r, module='C03'), 'msg': m} for k, r, m in col.viol]
+    p = col.parts.get('bash_prg_search', {})
+    ns, nt = int(p.get('states', 0)), int(p.get('transitions', 0))
+    bs = C10.bundles('quick')
+    res = vf.pmap(C10.search, [(i, 'quick') for i in range(len(bs))], case_timeout=900)
+    for i, (b, r) in enumerate(zip(bs, res)):
+        rec = {'cfg': cfg, 'kind': 'bundle', 'index': i, 'tier': 'quick', 'name': b.name, 'module': 'C10'}
+        if isinstance(r, dict):
+            viol.append({'key': 'st:bundle:' + b.name, 'rec': rec, 'msg': '%s: %s' % (b.name, (r.get('harness_error') or r.get('stderr') or str(r))[-600:])}); continue
+        s_, t_, v, capped = r
+        ns += s_; nt += t_
+        if v:
+            viol.append({'key': 'st:bundle:' + b.name, 'rec': rec, 'msg': '%s  [path %s]' % (v[1], v[0])})
+    return {'viol': viol, 'states': ns, 'transitions': nt, 'bundles': len(bs)}
+
 def sub(tier, cfg, out):
     global _cfg
+    if cfg.startswith('st:'):
+        json.dump(stateful(tier, cfg[3:]), open(out, 'w'))
+        return 0
     if cfg.startswith('pri:'):
         json.dump({'digest': pri_digest(cfg[4:])}, open(out, 'w'))
         return 0
@@ -114,6 +145,19 @@ def run(tier):
             chk.cap('word level [%s]: %s' % (cfg, c))
         chk.part('word_' + cfg, states=w['cells'], transitions=w['calls'], traces_validated_against_impl=w['calls'], evaluations=w['calls'], functions=w['functions'])
         chk.outcome('word:' + cfg)
+    from concurrent.futures import ThreadPoolExecutor
+    st_cfgs = [c for c in STATE_CFGS[tier] if cpu_ok(c)]
+    if chk.expired():
+        chk.cap('deadline before the stateful layer'); st_cfgs = []
+    with ThreadPoolExecutor(4) as ex:          # most bundles are single-process searches: four configurations share the cores
+        st_res = list(ex.map(lambda c: run_cfg(tier, 'st:' + c), st_cfgs))
+    for cfg, (w, err) in zip(st_cfgs, st_res):
+        if w is None:
+            chk.harness_error('stateful layer of configuration %s failed to run: %s' % (cfg, err)); continue
+        for v in w['viol']:
+            chk.violation('%s:%s' % (cfg, v['key']), v['rec'], '%s (configuration %s; the primary configuration passes the same search, see C03 / C10)' % (v['msg'], cfg))
+        chk.part('stateful_' + cfg, states=w['states'], transitions=w['transitions'], traces_validated_against_impl=w['transitions'], bundles=w['bundles'])
+        chk.outcome('stateful:' + cfg)
     # prime predicates with per-word-size code paths: digest differential over complete windows
     base_pri, err = run_cfg(tier, 'pri:' + PRIMARY)
     npri = sum(c for _, c in PRI_WINDOWS)
@@ -128,6 +172,7 @@ def run(tier):
         chk.part('pri_' + cfg, states=len(PRI_WINDOWS), transitions=2 * npri, traces_validated_against_impl=2 * npri, evaluations=2 * npri)
     chk.sample({'word_level': 'C05 catalogue (ww/zz/pp, both editions, lengths 0..6 quick / 0..20 thorough) in configurations %s against exact formulas' % WORD_CFGS[tier]})
     chk.sample({'configurations': [PRIMARY] + done, 'cases': len(cs)})
+    chk.sample({'stateful_layer': 'bash automaton search of C03 + all Start/Step/Get bundle searches of C10 in configurations %s' % STATE_CFGS[tier]})
     chk.sample({'fn': cs[0][0], 'case': cat.short(cs[0][1]), 'digest_primary': base[0]})
     chk.assumptions += ['32-bit word configuration = B_PER_W 32 on LP64 (hook H2); word-level functions (C05/C06) are compared against exact integers in both word sizes by their own checks',
                         'configurations: rel(-O2), rel3(-O3), O1, dbgp/dbg (-O0, ASSERT on, 1 KiB / exact blobs), clang -O2, w32, dbg32, SAFE_FAST (64/32), BASH_32/SSE2/AVX2/AVX512']
@@ -139,6 +184,13 @@ def replay(rec):
     global _cfg
     if rec.get('kind') == 'call':
         return C07.replay(rec)
+    if rec.get('module') == 'C03':
+        import C03
+        return C03.replay_prg(rec)
+    if rec.get('module') == 'C10':
+        import C10
+        C10.CFG = rec['cfg']
+        return C10.replay(rec)
     if rec.get('kind') == 'pri':
         a = vf.pmap(pri_digest, [PRIMARY, rec['cfg']], nproc=1)
         return None if a[0] == a[1] else 'prime sweep digests of %s and %s differ' % (PRIMARY, rec['cfg'])
